@@ -820,6 +820,13 @@ class C20(Prop):
         for k in npz_at:
             if rng.random() < 0.12:
                 inputs[k]["order"] = "F"
+        typed = [d for s_ in inputs for d in field_dtypes(s_) if s_["fmt"] == "npz" and s_.get("dtype")]
+        has_int = any(np.dtype(d).kind in "iu" for d in typed)
+        mixed_types = cmd == "stack" and n >= 2 and len({np.dtype(d) for s_ in inputs for d in
+                                                         (field_dtypes(s_) if s_["fmt"] == "npz" else ["f8"])}) > 1
+        if mixed_types:  # wide inputs hold values a narrower type cannot (full 53-bit mantissas)
+            for s_ in inputs:
+                s_["seed"] |= 1
         # ---- the same input named twice (or three times) on the command line.  stack: both copies must appear, each at its own
         # position; convert / filter: every copy is processed on its own (the derived outputs coincide: the same content is written
         # again) - in particular the second copy must NOT see what the run did to the first (filter: data on which a second pass
@@ -854,9 +861,13 @@ class C20(Prop):
             else:
                 inputs[i] = oddify(rng, s0)
         fmt_out = force.get("format", rng.choice([".npz", ".npz", ".npz", ".csv", ".csv", ".vtk", ".txt" if rng.random() < 0.15 else ".npz"]))
+        if typed and fmt_out == ".vtk" and "format" not in force and rng.random() < 0.85:
+            fmt_out = rng.choice([".npz", ".csv"])  # (.vtk of another storage type than float64 is recorded only)
         # ---- output
         if cmd == "stack":
             kinds = ["file"] * 10 + ["file_upper"] * 2 + ["bad_suffix", "dir", "omitted", "missing_dir"]
+            if mixed_types:
+                kinds = ["file"] * 12 + ["file_upper"] * 2 + ["dir"]
         elif n == 1:
             kinds = ["omitted"] * 4 + ["dir"] * 4 + ["file"] * 4 + ["file_upper"] * 2 + ["bad_suffix", "missing_dir"]
         else:
@@ -903,6 +914,8 @@ class C20(Prop):
         else:
             case["orientation"] = rng.choice(["vertical", "horizontal", None])
             case["pad"] = rng.choice(["default", "nan", -1.0, 0.0, 2.5, 1e6])
+            if has_int and rng.random() < 0.85:  # a pad value every integer type holds (others: recorded only)
+                case["pad"] = rng.choice([-1.0, 0.0, 1e6, 0.0, 7.0]) if not any(np.dtype(d).kind == "u" for d in typed) else rng.choice([0.0, 7.0, 1e6])
         if "elements" in force and cmd != "stack":
             case["elements"] = force["elements"]
         return case
